@@ -62,7 +62,9 @@ Theorem c07_unaffected_equal :
   forall (answer : N -> bytes -> json * list json) (root_answer : N -> json * list json) (kind_of : N -> fkind)
          (F : N -> option fault) (A : N -> bool) (t : ftree),
     (forall id k, F id = Some k -> loud (kind_of id) k = true) ->
-    (forall id rep, json_wf (fst (answer id rep)) = true) -> (forall id, json_wf (fst (root_answer id)) = true) ->
+    (forall id rep, json_wf (fst (answer id rep)) = true) ->
+    (forall id rep, obj_or_null (fst (answer id rep)) = true) ->   (* an `_entities` item is an object or null *)
+    (forall id, json_wf (fst (root_answer id)) = true) ->
     roots_are_objects root_answer -> answers_valid answer root_answer ->
     (forall id k, F id = Some k -> A id = true) -> closed_in A t ->
     fplan_wf kind_of t = true -> consistent answer root_answer kind_of t = true ->
@@ -102,12 +104,15 @@ Print Assumptions c07_requests_subset.
    (2) the skip is TRANSITIVE although DependsOnFetchIDs lists direct dependencies only, because a
        skipped fetch is recorded itself: a fetch that depends through any number of fetches
        ([dep_reach]) on a fetch whose request failed is recorded and sends no request.
-   [ls_hard s = false]: the resolve did not abort (an aborted resolve writes no response). *)
+   [ls_hard s = false]: the resolve did not abort (an aborted resolve writes no response).
+   [fault_fits F]: the wrong-kind faults ([FtItems], `data` a string / number / list on a root fetch) are reported through
+   mergeableData (eb6ed70), which the loader consults only when the fetch has an empty MergePath: a fetch hit by one of
+   them has none (vacuous for every other kind and for plans without merge paths: fplan_wf). *)
 Theorem c07_failed_recorded :
   forall (answer : N -> bytes -> json * list json) (root_answer : N -> json * list json) (kind_of : N -> fkind)
          (F : N -> option fault) (t : ftree),
     (forall id k, F id = Some k -> loud (kind_of id) k = true) -> roots_are_objects root_answer ->
-    forallb (fetch_wf kind_of) (fetches_of t) = true ->
+    forallb (fetch_wf kind_of) (fetches_of t) = true -> forallb (fault_fits F) (fetches_of t) = true ->
     forall rq, In rq (ls_reqs (run answer root_answer kind_of F t)) -> F (rq_fetch rq) <> None ->
     In (rq_fetch rq) (ls_errored (run answer root_answer kind_of F t)).
 Proof. exact failed_recorded_thm. Qed.
@@ -117,7 +122,7 @@ Theorem c07_skip_transitive :
   forall (answer : N -> bytes -> json * list json) (root_answer : N -> json * list json) (kind_of : N -> fkind)
          (F : N -> option fault) (t : ftree),
     (forall id k, F id = Some k -> loud (kind_of id) k = true) -> roots_are_objects root_answer ->
-    forallb (fetch_wf kind_of) (fetches_of t) = true -> deps_before t = true ->
+    forallb (fetch_wf kind_of) (fetches_of t) = true -> forallb (fault_fits F) (fetches_of t) = true -> deps_before t = true ->
     let s := run answer root_answer kind_of F t in
     ls_hard s = false ->
     forall rq0, In rq0 (ls_reqs s) -> F (rq_fetch rq0) <> None ->
@@ -165,29 +170,31 @@ Theorem c07_errors_nonempty :
   forall (answer : N -> bytes -> json * list json) (root_answer : N -> json * list json) (kind_of : N -> fkind)
          (F : N -> option fault) (t : ftree),
     (forall id k, F id = Some k -> loud (kind_of id) k = true) -> roots_are_objects root_answer ->
-    forallb (fetch_wf kind_of) (fetches_of t) = true ->
+    forallb (fetch_wf kind_of) (fetches_of t) = true -> forallb (fault_fits F) (fetches_of t) = true ->
     (exists rq, In rq (ls_reqs (run answer root_answer kind_of no_faults t)) /\ F (rq_fetch rq) <> None) ->
     ls_errors (run answer root_answer kind_of F t) <> [].
 Proof. exact errors_nonempty_proof. Qed.
 Print Assumptions c07_errors_nonempty.
 
-(* OPEN (finding wrong-kind-data-aborts-response): an `_entities` list of the right length whose items are
-   numbers / strings / lists ([FtItems]; also `data` itself of the wrong kind on a root fetch) is not a failure
-   the loader isolates: MergeValues returns ErrMergeDifferentTypes, mergeResult returns it, the resolve aborts
-   and NO response is written.  These kinds are therefore not [loud]; every other shape of "the selected data path
-   holds null / a wrong kind / nothing" on an entity or batch fetch is ([FtShape], covered by the theorems above). *)
+(* HISTORICAL (before eb6ed70, finding wrong-kind-data-aborts-response; ModelPreFix.run_v0): an `_entities` list of the right
+   length whose items are numbers / strings / lists ([FtItems]; also `data` itself of the wrong kind on a root fetch) was not a
+   failure the loader isolated: MergeValues returned ErrMergeDifferentTypes, mergeResult returned it, the resolve aborted and
+   NO response was written.  The repaired loader reports them (mergeableData): they are [loud], so c07_errors_nonempty,
+   c07_failed_recorded, c07_skip_transitive, c07_monotone, c07_unaffected_*, c07_requests_subset cover them
+   (ProofsErrors.items_outcome, data_kind_outcome; ProofsExamples.p1_wrong_kind_repaired). *)
 Theorem c07_wrong_kind_aborts_refuted :
   exists answer root_answer kind_of t root F,
     forallb (fetch_wf kind_of) (fetches_of t) = true /\ root_wf root = true /\
-    (exists rq ik we s5, In rq (ls_reqs (run answer root_answer kind_of no_faults t)) /\ F (rq_fetch rq) = Some (FtItems ik we s5)) /\
-    o_failed (finish root (run answer root_answer kind_of F t)) = true.
+    (exists rq ik we s5, In rq (ls_reqs (run_v0 answer root_answer kind_of no_faults t)) /\ F (rq_fetch rq) = Some (FtItems ik we s5)) /\
+    o_failed (finish root (run_v0 answer root_answer kind_of F t)) = true.
 Proof. exact wrong_kind_aborts_proof. Qed.
 Print Assumptions c07_wrong_kind_aborts_refuted.
 
-(* non-vacuity of [loud] for the null / wrong-kind shapes: ProofsExamples.p1_null_entities_list *)
+(* [loud] for the null / wrong-kind shapes and items (non-vacuity: ProofsExamples.p1_null_entities_list, p1_wrong_kind_repaired) *)
 Example c07_loud_shapes :
-  forall sh we s5, loud FEntity (FtShape sh we s5) = true /\ loud FBatch (FtShape sh we s5) = true /\
-                   loud FSingle (FtShape sh we s5) = false.
+  forall sh we s5 ik, loud FEntity (FtShape sh we s5) = true /\ loud FBatch (FtShape sh we s5) = true /\
+                      loud FEntity (FtItems ik we s5) = true /\ loud FBatch (FtItems ik we s5) = true /\
+                      loud FSingle (FtShape ShDataStr we s5) = true /\ loud FSingle (FtShape ShDataEmpty we s5) = false.
 Proof. intros. repeat split; reflexivity. Qed.
 
 (* valid_json (corollary of C02.resolve_refines_complete): whatever the loader state, the data member
@@ -342,6 +349,7 @@ Theorem c07_untainted_same :
     rs_err r0 = false -> rs_body r0 = BJson resp0 -> valid_numbers resp0 = true ->
     get_loc [PName k_data; PName k_entities] resp0 = Some (JArr ents0) -> List.length bl = List.length ents0 ->
     (forall respP, rs_body (apply_partial p r0) = BJson respP -> valid_numbers respP = true) ->
+    wrong_kind_batch f ents0 = false -> wrong_kind_batch f (null_fields (pf_nulls p) 0 ents0) = false ->   (* both lists pass mergeableData *)
     let items := filter_tainted T (select_items data path) in
     let sP := merge_result f (apply_partial p r0) items (Some bl) s in
     let s0 := merge_result f r0 items (Some bl) s in
